@@ -38,6 +38,15 @@ def rule_core(ctx):
     for fn in fns:
         key = fn_key(fn)
         c = fn["crate"]
+        helper_q = [y for y in walk(fn["body"]) if y.get("k") in ("MethodCall", "Call")
+                    and (c.dfn(y.get("def") if y.get("k") == "MethodCall" else strip(y["f"]).get("def")) or {}).get("krate") == "linfa_clustering"
+                    and any("VecDeque<" in (c.ty(peel_refs(a).get("t")) or "") for a in y["args"])]
+        if helper_q:
+            # the frontier is handed to a helper of the crate: insertions, their guards and the helper's own early returns are
+            # not events of this function - the model below (guards of the insertion inside transform) does not apply
+            res.instance("%s : frontier handled by a helper" % key)
+            res.undecided("%s : frontier-in-helper" % key, "the search queue is passed to `%s`: which points it enqueues under which test is not decided here (fail closed)" % (helper_q[0].get("name") or Render(c).e(helper_q[0])[:30]), fn_loc(fn, helper_q[0].get("ln")))
+            continue
         tr = Tracer(fn, inline=ctx.inliner(keep=("find_neighbors",))).run()
         ins = []
         for e in tr.events:
